@@ -17,6 +17,7 @@ import (
 	"net/http"
 	"net/http/httptest"
 	"os"
+	"reflect"
 	"regexp"
 	"runtime"
 	"runtime/debug"
@@ -1097,4 +1098,77 @@ func firstDiff(a, b string) string {
 		hb = len(b)
 	}
 	return fmt.Sprintf("at byte %d: %q vs %q", i, a[lo:ha], b[lo:hb])
+}
+
+// ---------- vocabulary taken from the tree at run time ----------
+
+// treeVocab lists the option names (with the choice names of multi-choice
+// options), URL parameters and interactive commands the current tree defines,
+// so that an option, parameter or command added by a later change is part of
+// the workloads without anyone editing a generator.
+type treeVocabT struct {
+	options   []string
+	kinds     map[string]reflect.Kind
+	urlparams []string
+	urlKinds  map[string]reflect.Kind
+	commands  []string
+}
+
+var treeVocabCache *treeVocabT
+
+func treeVocab() *treeVocabT {
+	if treeVocabCache != nil {
+		return treeVocabCache
+	}
+	v := &treeVocabT{kinds: map[string]reflect.Kind{}, urlKinds: map[string]reflect.Kind{}}
+	for _, f := range configFields {
+		v.options = append(v.options, f.name)
+		v.kinds[f.name] = f.field.Type.Kind()
+		for _, c := range f.choices {
+			v.options = append(v.options, c)
+			v.kinds[c] = reflect.Bool
+		}
+		if f.urlparam != "" {
+			v.urlparams = append(v.urlparams, f.urlparam)
+			v.urlKinds[f.urlparam] = f.field.Type.Kind()
+		}
+	}
+	for name := range pprofCommands {
+		v.commands = append(v.commands, name)
+	}
+	sort.Strings(v.options)
+	sort.Strings(v.urlparams)
+	sort.Strings(v.commands)
+	treeVocabCache = v
+	return v
+}
+
+func treeValue(t *simrt.Tape, k reflect.Kind, strs []string) string {
+	K := simrt.KGen
+	switch k {
+	case reflect.Bool:
+		return []string{"true", "false", "t", "0"}[t.Choose(K, 4)]
+	case reflect.Int, reflect.Int64:
+		return []string{"0", "1", "7", "-3", "100000"}[t.Choose(K, 5)]
+	case reflect.Float64:
+		return []string{"0", "0.25", "2", "1e-9"}[t.Choose(K, 4)]
+	}
+	return strs[t.Choose(K, len(strs))]
+}
+
+// treeAssign returns an interactive assignment to an option of the tree.
+func treeAssign(t *simrt.Tape, strs []string) string {
+	v := treeVocab()
+	name := v.options[t.Choose(simrt.KGen, len(v.options))]
+	if v.kinds[name] == reflect.Bool && t.Bool(simrt.KGen, 40) {
+		return name
+	}
+	return name + "=" + treeValue(t, v.kinds[name], strs)
+}
+
+// treeParam returns a URL parameter of the tree with a value.
+func treeParam(t *simrt.Tape, strs []string) (string, string) {
+	v := treeVocab()
+	name := v.urlparams[t.Choose(simrt.KGen, len(v.urlparams))]
+	return name, treeValue(t, v.urlKinds[name], strs)
 }
